@@ -27,7 +27,8 @@ def main():
     for p in props:
         pid = p["id"]
         path = os.path.join(HERE, "vp", "props", f"{pid.lower()}.py")
-        if not os.path.exists(path):
+        ready = open(os.path.join(HERE, "tools", "ready.txt")).read().split()
+        if not os.path.exists(path) or pid not in ready:
             na.append({"property_id": pid,
                        "reason": PENDING.get(
                            pid, "check not built yet in this revision "
